@@ -10,7 +10,7 @@ from .boot import VERIF_DIR, HarnessError
 from .decider import Decider, derive_seed
 
 PLAN = {   # (batches, runs per batch)
-    'quick': {'C02': (16, 100), 'C17': (16, 100)},
+    'quick': {'C02': (16, 100), 'C17': (16, 80)},
     'thorough': {'C02': (96, 200), 'C17': (96, 200)},
 }
 N_GOLDEN_JOBS = 16
@@ -188,11 +188,12 @@ def _shrink_plan_candidates(plan, recorded, cid, op_idx):
     c = plan['clients'][cid]
     one = copy.deepcopy(plan)
     one['clients'] = [dict(copy.deepcopy(c), cid=0, ops=[copy.deepcopy(c['ops'][op_idx])])]
-    yield one, None, 0, 0
+    ck = {'cache_keys': recorded.get('cache_keys')} if recorded and recorded.get('cache_keys') is not None else None
+    yield one, ck, 0, 0
     # 2. only the failing client
     onec = copy.deepcopy(plan)
     onec['clients'] = [dict(copy.deepcopy(c), cid=0)]
-    yield onec, None, 0, op_idx
+    yield onec, ck, 0, op_idx
     # 3. drop one other client at a time
     if len(plan['clients']) > 1:
         for drop in range(len(plan['clients'])):
@@ -206,10 +207,13 @@ def _shrink_plan_candidates(plan, recorded, cid, op_idx):
             p['clients'] = keep
             rec = None
             if recorded:
-                rec = {'first': remap.get(recorded['first'], 0),
-                       'switches': [[remap[s[0]], s[1], s[2], remap[s[3]], s[4], s[5]] for s in recorded['switches']
+                rec = {'first': remap.get(recorded['first'], 0), 'cache_keys': recorded.get('cache_keys'),
+                       'switches': [[remap[s[0]], s[1], s[2], remap[s[3]], s[4], s[5]] for s in (recorded.get('switches') or [])
                                     if s[0] in remap and s[3] in remap],
-                       'finishes': [[remap[f[0]], remap.get(f[1])] for f in recorded['finishes'] if f[0] in remap]}
+                       'finishes': [[remap[f[0]], remap.get(f[1])] for f in (recorded.get('finishes') or []) if f[0] in remap],
+                       'faults_fired': [[remap[f[0]]] + list(f[1:]) for f in (recorded.get('faults_fired') or []) if f[0] in remap]}
+                if recorded.get('switches') is None:
+                    rec = ck
             yield p, rec, remap[cid], op_idx
     # 4. drop ops after the failing one, then ops of other clients one at a time (schedule re-generated)
     for x in plan['clients']:
@@ -220,7 +224,29 @@ def _shrink_plan_candidates(plan, recorded, cid, op_idx):
             del p['clients'][x['cid']]['ops'][i]
             if not p['clients'][x['cid']]['ops']:
                 continue
-            yield p, None, cid, (op_idx - 1 if x['cid'] == cid and i < op_idx else op_idx)
+            nidx = (op_idx - 1 if x['cid'] == cid and i < op_idx else op_idx)
+            if recorded and recorded.get('switches') is not None:
+                # keep the recorded schedule: drop the switches taken inside the removed op, renumber later ops
+                sw = []
+                for s_ in recorded['switches']:
+                    s2 = list(s_)
+                    if s2[0] == x['cid']:
+                        if s2[1] == i:
+                            continue
+                        if s2[1] > i:
+                            s2[1] -= 1
+                    sw.append(s2)
+                ff = []
+                for f_ in recorded.get('faults_fired') or []:
+                    f2 = list(f_)
+                    if f2[0] == x['cid']:
+                        if f2[1] == i:
+                            continue
+                        if f2[1] > i:
+                            f2[1] -= 1
+                    ff.append(f2)
+                yield p, dict(recorded, switches=sw, faults_fired=ff), cid, nidx
+            yield p, ck, cid, nidx
     # 5. drop faults, fresh-thread flags, clock steps, cold start
     for x in plan['clients']:
         for i, o in enumerate(x['ops']):
@@ -234,7 +260,7 @@ def _shrink_plan_candidates(plan, recorded, cid, op_idx):
         p['cold'] = False
         yield p, recorded, cid, op_idx
     # 6. fewer switches
-    if recorded and recorded['switches']:
+    if recorded and recorded.get('switches'):
         n = len(recorded['switches'])
         for i in range(n):
             rec = copy.deepcopy(recorded)
@@ -300,7 +326,8 @@ def minimise(prop, v, seed, tier, ctx, ctx_file, scratch, budget=45, workers=16)
                     break
                 n = min(len(history), n * 2)
     rounds = 0
-    while rounds < 6:
+    t_start = time.time()
+    while rounds < 6 and time.time() - t_start < 240:      # wall-clock guard only: minimisation is best effort
         rounds += 1
         cands = list(_shrink_plan_candidates(cur['plan'], cur['recorded'], cid, op_idx))[:32]
         if not cands:
@@ -398,7 +425,7 @@ def run_check(prop, tier, seed, workers, batches=None, runs=None, do_minimise=Tr
         orch.cleanup(scratch)
 
 
-SUM_KEYS = ('runs', 'ops', 'steps', 'switches', 'barrier_hits', 'double_ctor', 'capped', 'clock_reads_in_explicit_calls',
+SUM_KEYS = ('runs', 'ops', 'steps', 'switches', 'barrier_hits', 'dirty_hits', 'double_ctor', 'capped', 'clock_reads_in_explicit_calls',
             'cold_runs', 'restarts', 'faulted_ops', 'checked_ops', 'swallowed_abort')
 DICT_KEYS = ('faults', 'known', 'sites', 'barrier_sites', 'ctor', 'placements', 'threads', 'sched_kinds', 'culture_classes',
              'get_outcomes')
@@ -449,7 +476,7 @@ def write_ev(prop, tier, seed, agg, wall, nviol, jobs):
                   'count': agg['runs'], 'derivation': 'run_seed = blake2b(VERIF_SEED, property, index)'},
         'simulated_time': 'not applicable to callsim: logical steps only (%d line-granular steps); the simulated wall clock is displaced at random before ops and must be irrelevant' % agg['steps'],
         'faults_fired': agg['faults'],
-        'probes': {'write_barrier_hits': agg['barrier_hits'], 'write_barrier_sites': agg['barrier_sites'],
+        'probes': {'write_barrier_hits': agg['barrier_hits'], 'shared_container_dirty_probe_hits': agg['dirty_hits'], 'write_barrier_sites': agg['barrier_sites'],
                    'write_barrier_classes_interposed': agg['barrier_classes'],
                    'constructions_per_key': agg['ctor'], 'runs_with_double_construction': agg['double_ctor'],
                    'clock_reads_during_explicit_reference_calls': agg['clock_reads_in_explicit_calls'],
